@@ -495,3 +495,41 @@ pub proof fn lemma_rs_any(s: &RegexSet, ts: Seq<String>, rs: Seq<Regex>, ci: boo
         }
     }
 }
+
+// ---- shake_1 rebuilds the regex searches of one (field, cast, case) key from their pattern texts
+pub open spec fn any_pat(ps: Seq<String>, n: int, ci: bool, x: Seq<char>) -> bool {
+    exists|i: int| 0 <= i < n && i < ps.len() && pat_lang((#[trigger] ps[i])@, ci, x)
+}
+pub proof fn lemma_any_pat_step(ps: Seq<String>, n: int, ci: bool, x: Seq<char>)
+    requires 0 <= n < ps.len(),
+    ensures any_pat(ps, n + 1, ci, x) == (any_pat(ps, n, ci, x) || pat_lang(ps[n]@, ci, x)),
+{
+    if any_pat(ps, n + 1, ci, x) {
+        let i = choose|i: int| 0 <= i < n + 1 && i < ps.len() && pat_lang((#[trigger] ps[i])@, ci, x);
+        if i < n { assert(any_pat(ps, n, ci, x)); }
+    }
+    if any_pat(ps, n, ci, x) {
+        let i = choose|i: int| 0 <= i < n && i < ps.len() && pat_lang((#[trigger] ps[i])@, ci, x);
+        assert(pat_lang(ps[i]@, ci, x));
+    }
+    if pat_lang(ps[n]@, ci, x) { assert(any_pat(ps, n + 1, ci, x)); }
+}
+// a set over the texts themselves
+pub proof fn lemma_rs_pats(s: &RegexSet, ps: Seq<String>, ci: bool)
+    requires rs_of(s, texts(ps), ci),
+    ensures forall|x: Seq<char>| #[trigger] regexset_is_match(s, x) == any_pat(ps, ps.len() as int, ci, x),
+{
+    let pats = texts(ps);
+    assert forall|x: Seq<char>| #[trigger] regexset_is_match(s, x) == any_pat(ps, ps.len() as int, ci, x) by {
+        if exists|i: int| 0 <= i < pats.len() && pat_lang(#[trigger] pats[i], ci, x) {
+            let i = choose|i: int| 0 <= i < pats.len() && pat_lang(#[trigger] pats[i], ci, x);
+            assert(pats[i] == ps[i]@);
+            assert(any_pat(ps, ps.len() as int, ci, x));
+        }
+        if any_pat(ps, ps.len() as int, ci, x) {
+            let i = choose|i: int| 0 <= i < ps.len() && pat_lang((#[trigger] ps[i])@, ci, x);
+            assert(pats[i] == ps[i]@);
+            assert(pat_lang(pats[i], ci, x));
+        }
+    }
+}
